@@ -86,7 +86,7 @@ Example C27_ex_hypotheses_satisfiable : prims_ok toy.
 Proof.
   constructor; cbn [aead_seal aead_open aead_ks aead_tag cbc_enc cbc_dec stream_ks hmac prf toy].
   - intros a k n ad p. unfold toy_open, toy_seal, toy_tag, toy_ks.
-    rewrite !app_length, bxor_length, !repeat_length, Nat.min_id.
+    unfold zeros. rewrite !app_length, bxor_length, !repeat_length, Nat.min_id.
     replace (length p + aead_overhead <? aead_overhead)%nat with false by (symmetry; apply Nat.ltb_ge; lia).
     replace (length p + aead_overhead - aead_overhead)%nat with (length p) by lia.
     rewrite firstn_app_exact by (rewrite bxor_length, repeat_length; lia).
@@ -96,12 +96,13 @@ Proof.
     replace (bytes_eqb _ _) with true by (symmetry; apply bytes_eqb_eq; reflexivity). reflexivity.
   - reflexivity.
   - intros. unfold toy_ks. apply repeat_length.
+  - intros a k n l1 l2 Hl. unfold toy_ks, zeros. replace l2 with (l1 + (l2 - l1))%nat by lia.
+    rewrite repeat_app. apply firstn_app_exact. rewrite repeat_length. reflexivity.
   - intros. unfold toy_tag. apply repeat_length.
-  - intros a k iv p. rewrite map_map. rewrite <- (map_id p) at 2. apply map_ext.
-    intros x. rewrite N.lxor_assoc, N.lxor_nilpotent, N.lxor_0_r. reflexivity.
-  - intros. apply map_length.
+  - reflexivity.
+  - reflexivity.
   - intros. apply repeat_length.
-  - intros. rewrite <- repeat_app. reflexivity.
+  - intros. unfold zeros. rewrite <- repeat_app. reflexivity.
   - intros. apply repeat_length.
   - intros. rewrite firstn_length, !app_length. unfold zeros. rewrite repeat_length. lia.
 Qed.
